@@ -1,0 +1,79 @@
+//go:build verif
+// +build verif
+
+// Contracts for package astutil (C17), read by /verif/engine (govc). Comment-only file: it adds no code.
+//
+// The child relation is NOT written here: childrenWalked(n, I) is generated from the type declarations of package ast
+// (every field, and every slice element, of type ast.Expr / ast.Stmt / ast.Operator of every node type implementing I).
+// The statement is per activation, over the trace of its direct calls; whole-tree coverage follows by induction.
+
+package astutil
+
+// walkedX(c): c is absent, or a direct walk call on c was made and returned nil
+//@ spec fun walkedE(c ast.Expr) bool = c == nil || (exists j int :: 0 <= j && j < ncalls() && calleeIs(j, "walkExpr") && arg(j) == c && res(j) == nil)
+//@ spec fun walkedS(c ast.Stmt) bool = c == nil || (exists j int :: 0 <= j && j < ncalls() && calleeIs(j, "walkStmt") && arg(j) == c && res(j) == nil)
+//@ spec fun walkedO(c ast.Operator) bool = c == nil || (exists j int :: 0 <= j && j < ncalls() && calleeIs(j, "walkOperator") && arg(j) == c && res(j) == nil)
+// a slice of children is walked by one walkExprs/walkStmts call on it, or element by element
+//@ spec fun walkedEs(s []ast.Expr) bool = (exists j int :: 0 <= j && j < ncalls() && calleeIs(j, "walkExprs") && arg(j) == s && res(j) == nil) || (forall i int :: 0 <= i && i < len(s) ==> walkedE(s[i]))
+//@ spec fun walkedSs(s []ast.Stmt) bool = (exists j int :: 0 <= j && j < ncalls() && calleeIs(j, "walkStmts") && arg(j) == s && res(j) == nil) || (forall i int :: 0 <= i && i < len(s) ==> walkedS(s[i]))
+
+// every error comes from a callee (ultimately from the callback), and the walk stops at the first one
+//@ spec fun errFromCallee(r error) bool = r == nil || (ncalls() >= 1 && res(ncalls()-1) == r)
+//@ spec fun stopsAtFirst() bool = forall j int :: 0 <= j && j < ncalls() - 1 ==> res(j) == nil
+
+//@ func callFunc
+//@ props C17
+//@ traced x -> result
+
+//@ func Walk
+//@ props C17
+//@ requires wf: knownNode(stmt, "ast.Stmt")
+
+//@ func walkStmts
+//@ props C17
+//@ traced stmts -> result
+//@ ensures [C17] all: result == nil && f != nil ==> (forall i int :: 0 <= i && i < len(stmts) ==> walkedS(stmts[i]))
+//@ ensures [C17] err: errFromCallee(result)
+//@ ensures [C17] stop: stopsAtFirst()
+//@ loop 0 invariant ncalls() == rangeindex + 1 && (forall k int :: 0 <= k && k < ncalls() ==> res(k) == nil && calleeIs(k, "walkStmt") && arg(k) == stmts[k])
+
+//@ func walkExprs
+//@ props C17
+//@ traced exprs -> result
+//@ ensures [C17] all: result == nil && f != nil ==> (forall i int :: 0 <= i && i < len(exprs) ==> walkedE(exprs[i]))
+//@ ensures [C17] err: errFromCallee(result)
+//@ ensures [C17] stop: stopsAtFirst()
+//@ loop 0 invariant ncalls() == rangeindex + 1 && (forall k int :: 0 <= k && k < ncalls() ==> res(k) == nil && calleeIs(k, "walkExpr") && arg(k) == exprs[k])
+
+//@ func walkStmt
+//@ props C17
+//@ traced stmt -> result
+//@ requires wf: knownNode(stmt, "ast.Stmt")
+//@ ensures [C17] first: result == nil && stmt != nil && f != nil ==> ncalls() >= 1 && calleeIs(0, "callFunc") && arg(0) == stmt
+//@ ensures [C17] children: result == nil && stmt != nil && f != nil ==> childrenWalked(stmt, "ast.Stmt")
+//@ ensures [C17] err: errFromCallee(result)
+//@ ensures [C17] stop: stopsAtFirst()
+
+//@ func walkExpr
+//@ props C17
+//@ traced expr -> result
+//@ requires wf: knownNode(expr, "ast.Expr")
+//@ ensures [C17] first: result == nil && expr != nil && f != nil ==> ncalls() >= 1 && calleeIs(0, "callFunc") && arg(0) == expr
+//@ ensures [C17] children: result == nil && expr != nil && f != nil ==> childrenWalked(expr, "ast.Expr")
+//@ ensures [C17] err: errFromCallee(result)
+//@ ensures [C17] stop: stopsAtFirst()
+
+//@ loop 0 invariant typeis(expr, "*ast.MapExpr") && ncalls() == 1 + 2*(rangeindex + 1) && calleeIs(0, "callFunc") && arg(0) == expr && (forall k int :: 0 <= k && k < ncalls() ==> res(k) == nil) && (forall k int :: 0 <= k && k <= rangeindex ==> calleeIs(1+2*k, "walkExpr") && arg(1+2*k) == as(expr, "*ast.MapExpr").Keys[k] && calleeIs(2+2*k, "walkExpr") && arg(2+2*k) == as(expr, "*ast.MapExpr").Values[k])
+
+//@ func walkOperator
+//@ props C17
+//@ traced op -> result
+//@ requires wf: knownNode(op, "ast.Operator")
+//@ ensures [C17] first: result == nil && op != nil && f != nil ==> ncalls() >= 1 && calleeIs(0, "callFunc") && arg(0) == op
+//@ ensures [C17] children: result == nil && op != nil && f != nil ==> childrenWalked(op, "ast.Operator")
+//@ ensures [C17] err: errFromCallee(result)
+//@ ensures [C17] stop: stopsAtFirst()
+
+// ASSUMPTIONS (parser): map literals have as many values as keys; the cases of a switch are SwitchCaseStmt nodes
+//@ axiom auto_wfMapExpr: forall m *ast.MapExpr :: m != nil ==> len(m.Keys) == len(m.Values)
+//@ axiom auto_wfSwitchCases: forall s *ast.SwitchStmt, i int :: s != nil && 0 <= i && i < len(s.Cases) ==> typeis(s.Cases[i], "*ast.SwitchCaseStmt")
